@@ -7,6 +7,8 @@ import ast
 from typing import Dict, List, Optional, Set
 
 from ..effects import Analyzer, _walk_local
+from ..interp import Interp, PyFunc, Raised, Unsupported
+from ..poly import Poly
 from ..model import AnalysisError, FuncInfo, Model, src, walk_no_nested
 
 PID = "C05"
@@ -257,92 +259,157 @@ def _assigns(fn: FuncInfo, name: str) -> List[ast.Assign]:
             and any(src(t) == name for t in n.targets)]
 
 
+class _Mat:
+    """matrix / vector stub recording row and column selections"""
+    def __init__(self, name, kind, rows=None, cols=None):
+        self.name, self.kind, self.rows, self.cols = name, kind, rows, cols
+        self.skv_types = ({"scipy.sparse.spmatrix"} if kind == "sparse"
+                          else {"numpy.ndarray"})
+        self.skv_isarray = kind != "sparse"
+
+    def skv_getitem(self, ix):
+        if isinstance(ix, tuple) and len(ix) == 2 and isinstance(
+                ix[0], slice) and ix[0] == slice(None):
+            return _Mat(self.name, self.kind, self.rows, ix[1])
+        return _Mat(self.name, self.kind, ix, self.cols)
+
+    def skv_binop(self, op, other, reflected):
+        a, b = (other, self) if reflected else (self, other)
+        name = {ast.MatMult: "@", ast.Sub: "-", ast.Add: "+"}.get(type(op))
+        if name is None:
+            raise Unsupported("operator on a matrix stub")
+        return ("op", name, a, b)
+
+    def skv_getattr(self, name):
+        if name == "copy":
+            return PyFunc(lambda a, k, n: ("copy", self))
+        if name == "shape":
+            return (Poly.sym("N"), Poly.sym("N"))
+        raise Unsupported(f"matrix attribute {name}")
+
+    def sig(self):
+        return (self.name, self.rows, self.cols)
+
+
+def _sig(v):
+    if isinstance(v, _Mat):
+        return v.sig()
+    if isinstance(v, tuple):
+        return tuple(_sig(x) for x in v)
+    return v
+
+
 def _r3(model, rep):
     R3 = "C05-R3"
-    # ---- condense
+    # ---- condense: symbolic run for the three kinds of right-hand side
     fn = model.func(U, "condense")
-    A_as = _assigns(fn, "Aout")
-    b_as = _assigns(fn, "bout")
-    if len(A_as) < 2 or len(b_as) != 2:
-        raise AnalysisError("condense: Aout/bout assignments not found")
-    for a in A_as:
-        s = _sub(a.value)
-        if s == ("A", "I", "I"):
-            rep.ok(R3, f"condense:Aout@{_branch(fn, a)}",
-                   "kept rows and columns: A[I][:, I]")
-        else:
-            rep.fail(R3, F, "condense", f"condense:Aout@{_branch(fn, a)}",
-                     f"condensed matrix is {src(a.value)}, expected rows and "
-                     f"columns of the kept set I", a.lineno)
-    rv = [n for n in _assigns(fn, "ret_value")
-          if isinstance(n.value, ast.Tuple) and len(n.value.elts) == 1
-          and isinstance(n.value.elts[0], ast.Subscript)]
-    for a in rv:
-        if _sub(a.value.elts[0]) == ("A", "I", "I"):
-            rep.ok(R3, "condense:matrix-only", "A[I][:, I]")
-        else:
-            rep.fail(R3, F, "condense", "condense:matrix-only",
-                     f"condensed matrix is {src(a.value.elts[0])}", a.lineno)
-    for a in b_as:
-        v = a.value
-        if isinstance(v, ast.BinOp) and isinstance(v.op, ast.Sub):
-            lhs = _sub(v.left)
-            rhs = v.right
-            ok = (lhs == ("b", "I", None) and isinstance(rhs, ast.BinOp)
-                  and isinstance(rhs.op, ast.MatMult)
-                  and _sub(rhs.left) == ("A", "I", "D")
-                  and _sub(rhs.right) == ("x", "D", None))
-            if ok:
-                rep.ok(R3, "condense:rhs", "b[I] - A[I][:, D] @ x[D]",
-                       sample=True)
-            else:
-                rep.fail(R3, F, "condense", "condense:rhs",
-                         f"reduced right-hand side is {src(v)}; the "
-                         f"eliminated columns D times the prescribed x[D] "
-                         f"must be subtracted from b[I]", a.lineno)
-        elif _sub(v) == ("b", "I", "I"):
-            rep.ok(R3, "condense:mass", "matrix right-hand side reduced to "
-                   "b[I][:, I]")
-        else:
-            rep.fail(R3, F, "condense", f"condense:bout@{_branch(fn, a)}",
-                     f"right-hand side {src(v)} is not reduced with the kept "
-                     f"set I", a.lineno)
-    aug = [n for n in walk_no_nested(fn.node) if isinstance(n, ast.AugAssign)
-           and src(n.target) == "ret_value"]
-    if len(aug) == 1 and src(aug[0].value) == "(x, I)":
-        rep.ok(R3, "condense:expand", "returns (x, I) for the expansion "
-               "y[I] = solution")
-    else:
-        rep.fail(R3, F, "condense", "condense:expand",
-                 "the expansion data is not (x, I): solve() would write the "
-                 "solution to the wrong indices",
-                 aug[0].lineno if aug else fn.lineno)
+
+    def run_condense(bkind, expand=True):
+        A = _Mat("A", "sparse")
+        b = None if bkind is None else _Mat("b", bkind)
+        x = _Mat("x", "dense")
+        it = Interp(model)
+        it.overrides[f"{U}._init_bc"] = PyFunc(
+            lambda a, k, n: (b, x, "I", "D"))
+        try:
+            return it.call(fn, [A, b, x], {"I": "I", "D": "D",
+                                           "expand": expand})
+        except (Unsupported, Raised) as e:
+            raise AnalysisError(f"condense[{bkind}]: {e}")
+    want_A = ("A", "I", "I")
+    r = run_condense("dense")
+    ok = (isinstance(r, tuple) and len(r) == 4 and _sig(r[0]) == want_A
+          and _sig(r[1]) == ("op", "-", ("b", "I", None),
+                             ("op", "@", ("A", "I", "D"), ("x", "D", None)))
+          and _sig(r[2]) == ("x", None, None) and r[3] == "I")
+    _verdict(rep, R3, ok, "condense[vector]",
+             "returns (A[I][:, I], b[I] - A[I][:, D] @ x[D], x, I)",
+             "condense",
+             f"condense returns {_sig(r)}; expected the kept block "
+             f"A[I][:, I], the reduced load b[I] - A[I][:, D] @ x[D] and "
+             f"the expansion data (x, I)", fn.lineno)
+    r = run_condense("sparse")
+    ok = (isinstance(r, tuple) and len(r) == 4 and _sig(r[0]) == want_A
+          and _sig(r[1]) == ("b", "I", "I") and r[3] == "I")
+    _verdict(rep, R3, ok, "condense[matrix rhs]",
+             "mass matrix reduced to b[I][:, I]", "condense",
+             f"with a matrix right-hand side condense returns {_sig(r)}; "
+             f"both matrices must be reduced to the kept block", fn.lineno)
+    r = run_condense(None)
+    ok = isinstance(r, tuple) and len(r) == 3 and _sig(r[0]) == want_A \
+        and r[2] == "I"
+    _verdict(rep, R3, ok, "condense[no rhs]", "returns (A[I][:, I], x, I)",
+             "condense", f"without right-hand side condense returns "
+             f"{_sig(r)}", fn.lineno)
+    r = run_condense("dense", expand=False)
+    ok = isinstance(r, tuple) and len(r) == 2 and _sig(r[0]) == want_A
+    _verdict(rep, R3, ok, "condense[expand=False]",
+             "returns the condensed system only", "condense",
+             f"expand=False returns {_sig(r)}", fn.lineno)
     # ---- expansion in solve_linear / solve_eigen
-    for name, rhs_kind in (("solve_linear", "vector"),
-                           ("solve_eigen", "matrix")):
-        fn = model.func(U, name)
-        ys = _assigns(fn, "y")
-        base_ok = len(ys) == 1 and "x.copy()" in src(ys[0].value)
-        stores = [n for n in walk_no_nested(fn.node)
-                  if isinstance(n, ast.Assign)
-                  and isinstance(n.targets[0], ast.Subscript)
-                  and src(n.targets[0].value) == "y"]
-        idx_ok = len(stores) == 1 and src(stores[0].targets[0].slice) == "I"
-        adds = [n for n in walk_no_nested(fn.node) if isinstance(n, ast.Call)
-                and src(n.func) == "np.add.at"]
-        add_ok = len(adds) == 1 and src(adds[0].args[0]) == "y" and \
-            src(adds[0].args[1]) == "I[0]"
-        rets = [n for n in walk_no_nested(fn.node)
-                if isinstance(n, ast.Return)]
-        cons = f"{name}:expansion"
-        if base_ok and idx_ok and add_ok:
-            rep.ok(R3, cons, "y = copy of x; y[I] = solution (or add.at for "
-                   "multipoint constraints); constrained entries keep x")
+    for name in ("solve_linear", "solve_eigen"):
+        f2 = model.func(U, name)
+        log = []
+
+        class Y:
+            def __init__(self, base):
+                self.base = base
+
+            def skv_setitem(self, ix, v):
+                log.append(("set", ix, v))
+
+        class XV:
+            skv_isarray = True
+
+            def skv_getattr(self, nm):
+                if nm == "copy":
+                    return PyFunc(lambda a, k, n: Y("copy-of-x"))
+                raise Unsupported("x." + nm)
+
+        def hook(interp, nm, args, kwargs, node):
+            if nm == "numpy.tile":
+                return args[0]
+            if nm == "numpy.add.at":
+                log.append(("add.at", args[0], args[1]))
+                return None
+            return NotImplemented
+        solver = PyFunc(lambda a, k, n: ("SOL", "X") if name ==
+                        "solve_eigen" else "SOL")
+
+        class SolX:
+            shape = (3, 2)
+        xs = XV()
+        args = ["A", "b", xs, "I", solver]
+        try:
+            it = Interp(model, call_hook=hook)
+            r = it.call(f2, args, {})
+        except (Unsupported, Raised) as e:
+            # eigen variant needs X.shape; fall back to the structural form
+            r = None
+        stores = [e_ for e_ in log if e_[0] == "set"]
+        if r is not None:
+            y = r[1] if isinstance(r, tuple) else r
+            ok = (isinstance(y, Y) and len(stores) == 1
+                  and stores[0][1] == "I")
+            _verdict(rep, R3, ok, f"{name}:expansion",
+                     "y = copy of x; y[I] = solution; constrained entries "
+                     "keep the prescribed values", name,
+                     f"expansion writes {stores} into {type(y).__name__}: "
+                     f"the solution must go to y[I] of a copy of x",
+                     f2.lineno)
         else:
-            rep.fail(R3, F, name, cons,
-                     f"expansion does not write the solution at I into a "
-                     f"copy of x (copy: {base_ok}, index I: {idx_ok}, "
-                     f"mpc add: {add_ok})", fn.lineno)
+            ys = _assigns(f2, "y")
+            sto = [n for n in walk_no_nested(f2.node)
+                   if isinstance(n, ast.Assign)
+                   and isinstance(n.targets[0], ast.Subscript)
+                   and src(n.targets[0].value) == "y"]
+            ok = (len(ys) == 1 and "x.copy()" in src(ys[0].value)
+                  and len(sto) == 1
+                  and src(sto[0].targets[0].slice) == "I")
+            _verdict(rep, R3, ok, f"{name}:expansion",
+                     "y built from a copy of x; y[I] = solution", name,
+                     "expansion does not write the solution at I into a "
+                     "copy of x", f2.lineno)
     # ---- enforce / penalize
     fn = model.func(U, "enforce")
     checks = []
